@@ -80,6 +80,16 @@ def cases(tier, rng, schema, feats):
                 ga = b"\x02" + cbor.enc(cbor.M([(1, "example.com"), (2, b"\x22" * 32), (9, prefs)]))
                 out.append(f"C14.fmt.{n}\tdec2\t{ga.hex()}")
                 n += 1
+    # near-spellings of the known formats (padding, terminators, whitespace, byte-order mark, other case, truncation, repetition):
+    # each is an UNKNOWN format; alone, before and after the real ones
+    near = []
+    for base in ("packed", "none"):
+        near += [base + "\x00", base + "\x00\x00", "\x00" + base, base + " ", " " + base, base + "\n", "\t" + base, "\ufeff" + base,
+                 base + "\u200b", base.upper(), base.capitalize(), base[:-1], base + base, base + ".", base + "-v2"]
+    for x in near:
+        for prefs in ([x], [x, "packed", "none"], ["packed", x, "none"], ["none", "packed", x], [x, x, "packed"]):
+            out.append(f"C14.fmt.{n}\tdec2\t{mc([entry(-7, 'public-key')], prefs).hex()}")
+            n += 1
     # encode side: GetInfo algorithms
     for algs in ([], [-7], [-8], [-7, -8], [-8, -7]):
         v = "{aaguid=b" + "00" * 16 + ";versions=[e:Fido2_0];algorithms=S([" + ",".join("{alg=i-%x}" % -a for a in algs) + "])}"
